@@ -14,6 +14,7 @@ unsigned char* iglue_mem_data(void* inst);
 unsigned iglue_mem_pages(void* inst);
 void* iglue_mem_object(void* inst);
 void* iglue_tab_object(void* inst);
+void* iglue_export_memory(void* inst);
 void iglue_free_instance(void* inst);
 void iglue_env_free(InstEnv* e);
 extern int g_unknown_lookups;
